@@ -490,3 +490,134 @@ func checkIsolation(prop string, p *PipePlan, obs *PipeObs, out *RunOut) {
 		}
 	}
 }
+
+// ---------------------------------------------------------------- mirror (C16)
+
+func to4(b []byte) []byte {
+	if len(b) == 4 {
+		return b
+	}
+	if len(b) == 16 {
+		for i := 0; i < 10; i++ {
+			if b[i] != 0 {
+				return nil
+			}
+		}
+		if b[10] == 0xff && b[11] == 0xff {
+			return b[12:]
+		}
+	}
+	return nil
+}
+
+// checkMirror: every received IPFIX / sFlow datagram is re-emitted once as an
+// IPv4/UDP packet from the exporter's address to the configured target with
+// consistent length fields and a byte-identical payload.
+func checkMirror(prop string, p *PipePlan, obs *PipeObs, out *RunOut) {
+	if obs.PanicVal != "" || obs.Exited {
+		return
+	}
+	c := &p.Cfg
+	type key struct {
+		proto   string
+		src     string
+		payload string
+	}
+	want := map[key]int{}
+	order := []key{}
+	recv := receivedCount(obs)
+	for i := range p.Dels {
+		d := &p.Dels[i]
+		if recv[d.ID] == 0 {
+			continue
+		}
+		tgt := ""
+		switch d.Proto {
+		case pIPFIX:
+			tgt = c.MirrorIPFIX
+		case pSFlow:
+			tgt = c.MirrorSFlow
+		}
+		if tgt == "" {
+			continue
+		}
+		src := to4(p.Exporters[d.Exporter].Addr)
+		if src == nil {
+			continue // IPv6 exporters are outside the statement
+		}
+		pl := d.payload
+		if len(pl) > c.udpSize(d.Proto) {
+			pl = pl[:c.udpSize(d.Proto)]
+		}
+		k := key{d.Proto, string(src), string(pl)}
+		if want[k] == 0 {
+			order = append(order, k)
+		}
+		want[k] += recv[d.ID]
+	}
+	got := map[key]int{}
+	for i := range obs.Raw {
+		pk := &obs.Raw[i]
+		b := pk.Data
+		bad := func(f string, a ...interface{}) {
+			out.Violations = append(out.Violations, Violation{Prop: prop, Class: "mirror-packet", Key: normKey(fmt.Sprintf(f, a...)),
+				Msg: fmt.Sprintf("mirrored packet %d: %s\nfirst octets: %x", i, fmt.Sprintf(f, a...), trunc(b, 48))})
+		}
+		if len(b) < 28 {
+			bad("shorter than IPv4+UDP headers (%d octets)", len(b))
+			continue
+		}
+		proto := pIPFIX
+		port := c.MirrorPort
+		tgt := c.MirrorIPFIX
+		dport := int(b[22])<<8 | int(b[23])
+		if c.MirrorSFlow != "" && (c.MirrorIPFIX == "" || dport == c.MirrorPort+1) {
+			proto, port, tgt = pSFlow, c.MirrorPort+1, c.MirrorSFlow
+		}
+		dst := net.ParseIP(tgt).To4()
+		if b[0] != 0x45 {
+			bad("IP version/IHL octet is %#x, want 0x45", b[0])
+		}
+		if tl := int(b[2])<<8 | int(b[3]); tl != len(b) {
+			bad("IP total length %d but %d octets were sent", tl, len(b))
+		}
+		if b[9] != 17 {
+			bad("IP protocol %d, want 17", b[9])
+		}
+		if !bytes.Equal(b[16:20], dst) {
+			bad("IP destination %v, want %v", net.IP(b[16:20]), dst)
+		}
+		if !bytes.Equal(pk.To, dst) {
+			bad("packet handed to the kernel for %v, want %v", net.IP(pk.To), dst)
+		}
+		if dport != port {
+			bad("UDP destination port %d, want %d", dport, port)
+		}
+		if ul := int(b[24])<<8 | int(b[25]); ul != len(b)-20 {
+			bad("UDP length %d, want %d", ul, len(b)-20)
+		}
+		got[key{proto, string(b[12:16]), string(b[28:])}]++
+		if len(out.Violations) > 3 {
+			return
+		}
+	}
+	exact := c.CapMirror > len(p.Dels)
+	for _, k := range order {
+		w := want[k]
+		g := got[k]
+		if g > w || (exact && g < w) {
+			// explain: is there a packet from that source with another payload?
+			out.Violations = append(out.Violations, Violation{Prop: prop, Class: "mirror-missing", Key: k.proto,
+				Msg: fmt.Sprintf("%s datagram from %v (%d octets) was received %d times but mirrored %d times with identical payload and source", k.proto, net.IP(k.src), len(k.payload), w, g)})
+			return
+		}
+	}
+	for k, g := range got {
+		if want[k] == 0 {
+			out.Violations = append(out.Violations, Violation{Prop: prop, Class: "mirror-unexpected", Key: k.proto,
+				Msg: fmt.Sprintf("a %s packet from %v with a %d-octet payload was mirrored but no such datagram was received", k.proto, net.IP(k.src), len(k.payload)), })
+			_ = g
+			return
+		}
+	}
+}
